@@ -116,6 +116,6 @@ theorem exact_flow (x0 : Fin 10 → ℝ) (a w : Fin 3 → ℝ) (g dt : ℝ) (h :
 /-- the step dt = 0 is the identity (position, velocity; attitude up to the factor cos_x(0) = 1) -/
 theorem dt_zero (x0 : Fin 10 → ℝ) (a w : Fin 3 → ℝ) (g : ℝ) (i : Fin 10) :
     rdd2.strapdown_ins_propagate.x1_vec x0 a w g 0 i = x0 i := by
-  fin_cases i <;> simp [cas_defs, cas_real, sq_cos_x_zero, sq_sin_x_over_x_zero]
+  fin_cases i <;> simp [cas_defs, cas_real, sq_cos_x_zero, sq_sin_x_over_x_zero] <;> (try ring1)
 
 end C08
